@@ -117,6 +117,9 @@ def universe(tier):
                 vals = []
                 ok = True
                 for c in combo:
+                    if '"obj"' in json.dumps(c):
+                        ok = False   # objects hash by address: a set of them has no process-independent structure (outside the domain)
+                        break
                     try:
                         v = build(c)
                         hash(v)
